@@ -228,6 +228,35 @@ pub fn history_strategy() -> impl Strategy<Value = HistoryCase> {
     (0usize..169, any::<u8>(), prop_oneof![Just(1.0f32), Just(0.5f32), weight_any()], prop_oneof![Just(230u32), Just(65_500u32)], 0u32..16, any::<u8>()).prop_map(|(ci, drop, w, base, off, filler_kind)| HistoryCase { cell: all_cells()[ci], drop, w, fillers: base + off, probes: 48, filler_kind })
 }
 
+/// Ranges with several hundred distinct weights: every rank pair has a weight of its own; most
+/// pairs are present completely except that one combo carries a second weight of its own (so the
+/// pair is not complete), some are uniform, some absent.
+pub fn many_weights_range(seed: u64) -> RangeCase {
+    let mut m = RangeMap::new();
+    let mut x = mix64(seed ^ 0x77ee);
+    for (ci, cell) in all_cells().iter().enumerate() {
+        x = mix64(x);
+        let combos = cell.combos();
+        let w = (2 * ci as u32 + 1) as f32 / 1024.0;
+        let w2 = (2 * ci as u32 + 2) as f32 / 1024.0 + 0.5 / 1024.0;
+        match x % 16 {
+            0 => {}
+            1 | 2 => {
+                for p in &combos {
+                    m.insert(*p, w);
+                }
+            }
+            _ => {
+                let odd = (x >> 8) as usize % combos.len();
+                for (i, p) in combos.iter().enumerate() {
+                    m.insert(*p, if i == odd { w2 } else { w });
+                }
+            }
+        }
+    }
+    RangeCase::from_map(&m)
+}
+
 fn background(seed: u64) -> Vec<(u8, u8, f32)> {
     // a few complete neighbours and stray combos, deterministic
     let mut m = RangeMap::new();
@@ -252,7 +281,7 @@ fn background(seed: u64) -> Vec<(u8, u8, f32)> {
 }
 
 pub fn run(ctx: &mut Ctx) {
-    ctx.rule = "(1) exhaustive inside one rank pair: every absent/weight-a/weight-b pattern of its combos - all 3^6 x 13 pockets, all 3^4 x 78 suited, all 3^12 = 531,441 x (quick 6, thorough all 78) offsuit rank pairs - embedded in a seeded background of neighbouring complete rank pairs and stray combos; the pocket/suited patterns again with the two weights +0.0 / -0.0; (2) proptest offsuit patterns biased to 'all but one present' and 'one weight differs' over all 78 offsuit pairs; (3) C06's row-pattern ranges with partial cells and arbitrary weights; (4) ranges obtained by parsing every well-formed token alone (either rank / card order) and generated token lists. (5) long histories on one thread: a rank pair queried complete, then 230-245 or 65,500-65,515 queries of unrelated ranges, then 48 queries of the same pair with one combo missing (each query is a rank_pairs() and an orphan_card_pairs() call), covering the wrap points of 8- and 16-bit call counters. Oracle: rank_pairs() == the model's complete cells (both directions, weight bit-equal, high card first), orphan_card_pairs() == model leftovers, every combo covered exactly once by the two views. Non-trivial = some rank pair complete or almost complete (all present with one differing weight, or exactly one combo missing); distinct by range contents.".into();
+    ctx.rule = "(1) exhaustive inside one rank pair: every absent/weight-a/weight-b pattern of its combos - all 3^6 x 13 pockets, all 3^4 x 78 suited, all 3^12 = 531,441 x (quick 6, thorough all 78) offsuit rank pairs - embedded in a seeded background of neighbouring complete rank pairs and stray combos; the pocket/suited patterns again with the two weights +0.0 / -0.0; (2) proptest offsuit patterns biased to 'all but one present' and 'one weight differs' over all 78 offsuit pairs; (3) C06's row-pattern ranges with partial cells and arbitrary weights; (4) ranges obtained by parsing every well-formed token alone (either rank / card order) and generated token lists. (5) ranges with about 300 distinct weights (every rank pair its own weight, most pairs complete but for one combo with a second weight of its own); (6) long histories on one thread: a rank pair queried complete, then 230-245 or 65,500-65,515 queries of unrelated ranges, then 48 queries of the same pair with one combo missing (each query is a rank_pairs() and an orphan_card_pairs() call), covering the wrap points of 8- and 16-bit call counters. Oracle: rank_pairs() == the model's complete cells (both directions, weight bit-equal, high card first), orphan_card_pairs() == model leftovers, every combo covered exactly once by the two views. Non-trivial = some rank pair complete or almost complete (all present with one differing weight, or exactly one combo missing); distinct by range contents.".into();
     ctx.assumptions = vec!["entries made of one card twice (possible through FromIterator) are legal keys: they belong to no rank pair and stay among the leftovers".into(), "weights finite, >= 0, not NaN (NaN != NaN would make 'same weight' meaningless); -0.0 is a legal weight here and is the same weight as +0.0 (f32 equality), so reported weights are compared with ==".into()];
     let cells = all_cells();
     // pockets and suited: all patterns
@@ -339,6 +368,9 @@ pub fn run(ctx: &mut Ctx) {
     ctx.run_enum_brief(StreamCfg::new("parsed_single_tokens", CLASSES, n), n, true, |i| toks[i as usize].text(), check_parsed, |t| json!(t));
     let cases = ctx.tier.pick(3_000, 40_000);
     ctx.run_random_brief(StreamCfg::new("parsed_token_lists", CLASSES, cases).shrink(200), || crate::props::c05::list_strategy(8).prop_map(|l| crate::props::c05::list_text(&l)), check_parsed, |t| json!(t));
+    // several hundred distinct weights in one range
+    let cases = ctx.tier.pick(600, 20_000);
+    ctx.run_random_brief(StreamCfg::new("many_distinct_weights", CLASSES, cases).shrink(10), || any::<u64>().prop_map(many_weights_range), check_range, |c| json!({"combos": c.combos.len(), "distinct_weights": c.combos.iter().map(|x| x.2.to_bits()).collect::<std::collections::BTreeSet<_>>().len()}));
     // long histories on one thread (wrap points of 8- and 16-bit generation counters)
     let cases = ctx.tier.pick(48, 1_200);
     ctx.run_random_brief(StreamCfg::new("long_thread_histories", CLASSES, cases).shrink(20), history_strategy, check_history, |c| json!({"cell": c.cell.name(), "fillers": c.fillers, "probes": c.probes}));
@@ -353,6 +385,7 @@ pub fn replay(stream: &str, path: &str, case: &Value) -> i32 {
         "row_pattern_ranges" => replay_case::<RangeCase>("C12", path, case, check_range),
         "parsed_single_tokens" | "parsed_token_lists" => replay_case::<String>("C12", path, case, check_parsed),
         "long_thread_histories" => replay_case::<HistoryCase>("C12", path, case, check_history),
+        "many_distinct_weights" => replay_case::<RangeCase>("C12", path, case, check_range),
         _ => replay_case::<PatternCase>("C12", path, case, check_pattern),
     }
 }
